@@ -25,14 +25,14 @@ type c15Path struct {
 }
 
 type c15Case struct {
-	Workflow   string    `json:"workflow"`    // content of the linted file
-	File       string    `json:"file"`        // path relative to the repository root
-	RepoDir    string    `json:"repo_dir"`    // repository directory relative to the world root
-	Sibling    string    `json:"sibling"`     // optional second repository (prefix-sharing name) with its own config
-	Paths      []c15Path `json:"paths"`       // config of the repository
-	CLIIgnore  []string  `json:"cli_ignore"`  // -ignore patterns
-	BadRegex   bool      `json:"bad_regex"`   // an invalid -ignore regex is added (expects exit 3)
-	BadFlag    bool      `json:"bad_flag"`    // an unknown flag is added (expects exit 2)
+	Workflow  string    `json:"workflow"`   // content of the linted file
+	File      string    `json:"file"`       // path relative to the repository root
+	RepoDir   string    `json:"repo_dir"`   // repository directory relative to the world root
+	Sibling   string    `json:"sibling"`    // optional second repository (prefix-sharing name) with its own config
+	Paths     []c15Path `json:"paths"`      // config of the repository
+	CLIIgnore []string  `json:"cli_ignore"` // -ignore patterns
+	BadRegex  bool      `json:"bad_regex"`  // an invalid -ignore regex is added (expects exit 3)
+	BadFlag   bool      `json:"bad_flag"`   // an unknown flag is added (expects exit 2)
 }
 
 type c15Diag struct {
